@@ -23,8 +23,7 @@ AddrBits == 8
 NoHop == 0          \* "no default route" / "no next hop"
 Default == 0        \* the choice "use the default route" (indices of table routes are 1..Len)
 
-RECURSIVE Pow2(_)
-Pow2(n) == IF n = 0 THEN 1 ELSE 2 * Pow2(n - 1)
+Pow2(n) == 2 ^ n
 
 \* size of an address block of prefix length plen
 Block(plen) == Pow2(AddrBits - plen)
